@@ -81,10 +81,18 @@ func (s *smState) apply(index uint64, cmd []byte) sm.Result {
 	v.Ver++
 	s.kv[key] = v
 	s.count++
+	if QuietWrite(wid) {
+		return sm.Result{}
+	}
 	d := make([]byte, 8)
 	binary.LittleEndian.PutUint64(d, v.Ver)
 	return sm.Result{Value: wid, Data: d}
 }
+
+// QuietWrite: the state machine answers these writes with the empty result (a
+// legal answer, and one that leaves no trace in a session's response cache
+// unless the cache remembers empty results too).
+func QuietWrite(wid uint64) bool { return wid%8 == 5 }
 
 func (s *smState) encode() []byte {
 	keys := make([]int, 0, len(s.kv))
